@@ -6,7 +6,7 @@ from vf.core import Obs
 
 PID = "C08"
 RULE = (
-    "case = one labware geometry (plate rows x cols or trough virtual_rows x cols) for which EVERY well is checked "
+    "case = one labware geometry (plate rows x cols, or trough virtual_rows x cols built with Trough() or with Labware(virtual_rows=)) for which EVERY well is checked "
     "against the closed formula on both devices plus bijection/attribute/helper agreement and emitted A/D position "
     "fields, or one operation naming a non-existent well id. Enumerated: thorough = every plate 1..26 x (1..99,100,120) "
     "and every trough 1..26 x 1..24; quick = all geometries with <= 40 wells, the extremes and a fixed stride sample of "
@@ -47,6 +47,9 @@ def enumerate_cases(tier):
         yield {"kind": "plate", "rows": r, "cols": c}
     for v, c in troughs:
         yield {"kind": "trough", "vrows": v, "cols": c}
+    # the same trough geometries built with Labware(name, 1, columns, virtual_rows=V)
+    for v, c in troughs[:: (1 if tier == "thorough" else 3)]:
+        yield {"kind": "trough", "vrows": v, "cols": c, "legacy": True}
 
 
 BAD_STYLES = ["row+1", "col+1", "unpadded", "lower", "twoletters", "empty", "trailing", "threedigits", "col0", "far"]
@@ -110,7 +113,11 @@ def _geometry(obs, case):
         trough = False
     else:
         V, C = case["vrows"], case["cols"]
-        lw = robotools.Trough("T", V, C, min_volume=0, max_volume=100000, initial_volumes=1000)
+        if case.get("legacy"):
+            lw = robotools.Labware("T", 1, C, min_volume=0, max_volume=100000, initial_volumes=1000, virtual_rows=V)
+            obs.cls("trough-via-Labware")
+        else:
+            lw = robotools.Trough("T", V, C, min_volume=0, max_volume=100000, initial_volumes=1000)
         nrows_ids = V
         trough = True
     wells = lw.wells
